@@ -377,30 +377,27 @@ Qed.
 End C03_translated_save.
 
 (* ================================================================== the autowrite option and the remembered stamp over whole
-   histories (coq/IoAwDefs.v, IoAwProps.v).  bufs_modified() of ex.c -- asked by :e :n :b :!cmd :make and by the loop of :q --
-   saves a modified buffer WITHOUT `!` when `:se aw` is on, guarded by bufs[i].mtime, and records nothing afterwards.  Every slot
-   carries a ghost stamp (not in the C program): the stamp its file had when the editor last read it into the slot or last wrote it
-   successfully from that slot as its own path.  A history is any list of: option switches, edits, foreign operations, :w :x
-   [range] [!] [path], :q :wq :x :xa [!] [path], :e [!] [path], :b [!] i, :!cmd -- each editor command with its own clock value and
-   its own fault schedule. *)
+   histories (coq/IoAwDefs.v, IoAwProps.v; ex.c after 37c81b2).  bufs_modified() of ex.c -- asked by :e :n :b :!cmd :make and by the
+   loop of :q -- saves a modified buffer WITHOUT `!` when `:se aw` is on, guarded by bufs[i].mtime; after a save that returned no error,
+   and only then, it marks the buffer saved and remembers the file's new stamp (so does the `a` loop of ec_quit).  Every slot carries a
+   ghost stamp (not in the C program): the stamp its file had when the editor last read it into the slot or last wrote it successfully
+   from that slot as its own path.  A history is any list of: option switches, edits, foreign operations, :w :x [range] [!] [path],
+   :q :wq :x :xa [!] [path], :e [!] [path], :b [!] i, :!cmd -- each editor command with its own clock value and its own fault schedule. *)
 From NV Require IoAwDefs IoAwProps.
 Section C03_autowrite.
 Import IoAwDefs IoAwProps.
 
-(* THE REMEMBERED STAMP NEVER RUNS AHEAD.  After EVERY history from the start of the editor, with the option switched on and off
-   at will and any faults: every slot remembers at most the stamp its file had when the editor last read or wrote it.  Hence in
-   the state reached, for the current slot x whose file is newer than that (or exists although there was none):
+(* THE REMEMBERED STAMP IS THE GHOST.  After EVERY history from the start of the editor, with the option switched on and off at will,
+   any faults, any clock values, any foreign operations: every slot remembers EXACTLY the stamp its file had when the editor last read
+   it or last wrote it successfully (no hypothesis; before 37c81b2 only `<=` held, and only for files not dated in the editor's future).
+   Hence in the state reached, for the current slot x whose file is newer than that (or exists although there was none):
    (1) any :w / :x [range] / write part of :wq :x :xa without `!` that targets the own path is refused, nothing consumed or changed;
    (2) if x is modified, :e :n :b :!cmd :make without `!` do not leave it -- with autowrite on the save is refused, nothing changes;
    (3) the loop of :q / :xa without `!` stops at the first slot it has to save (xa: the first; q: the first modified one, option on
-       or off) whose file is newer, with every record, the directory and the schedule untouched.
-   Hypothesis clock_ok: when a command runs, the editor's clock is not behind a stamp some slot remembers (no file dated in the
-   editor's future was loaded); it is needed only because the autowrite and the xa loop do not refresh the remembered stamp
-   after a SUCCESSFUL save -- see C03_aw_nonvacuous for what happens without it. *)
+       or off) whose file is newer, with every record, the directory and the schedule untouched. *)
 Theorem C03_aw_history : forall lk fs p h,
-  clock_ok bufs_modified (start lk fs p) h ->
   let s := run bufs_modified (start lk fs p) h in
-  aw_inv (e_tb s) /\
+  Forall (fun x : gbuf => b_mtime (fst x) = snd x) (e_tb s) /\
   (forall (x : gbuf) (rest : list gbuf), e_tb s = x :: rest -> newer (e_lk s) (e_fs s) x ->
      (forall now isx rng a sch, skips isx (fst x) = false -> path_of_arg (map fst (x :: rest)) a = Some (b_path (fst x)) ->
         write_g now isx false rng (e_lk s) a (x :: rest) (e_fs s) sch = (SRefused, x :: rest, e_fs s, sch)) /\
@@ -414,39 +411,43 @@ Theorem C03_aw_history : forall lk fs p h,
      quit_scan bufs_modified now aw all false (e_lk s) (pre ++ x :: rest) (e_fs s) sch
        = (Some (length pre), SRefused, pre ++ x :: rest, e_fs s, sch)).
 Proof.
-  intros lk fs p h C s. pose proof (run_inv h (start lk fs p) C (start_inv lk fs p)) as I. fold s in I.
+  intros lk fs p h s. pose proof (run_inv h (start lk fs p) (start_inv lk fs p)) as I. fold s in I. unfold aw_inv in I.
   split; [exact I|]. split.
-  - intros x rest E N. rewrite E in I. inversion I as [|? ? I1 I2]; subst. split.
+  - intros x rest E N. rewrite E in I. inversion I as [|? ? I1 I2]; subst. apply Z.eq_le_incl in I1. split.
     + intros now isx rng a sch SK PA. exact (write_g_newer now isx rng (e_lk s) a x rest (e_fs s) sch I1 N SK PA).
     + intros D now aw sch. exact (leave_newer now aw (e_lk s) x rest (e_fs s) sch I1 N D).
-  - intros pre x rest now aw all sch E N P D. rewrite E in I. unfold aw_inv in I. apply Forall_app in I. destruct I as [_ I].
-    inversion I as [|? ? I1 I2]; subst. exact (quit_scan_newer now aw all (e_lk s) pre x rest (e_fs s) sch P I1 N D).
+  - intros pre x rest now aw all sch E N P D. rewrite E in I. apply Forall_app in I. destruct I as [_ I].
+    inversion I as [|? ? I1 I2]; subst. apply Z.eq_le_incl in I1. exact (quit_scan_newer now aw all (e_lk s) pre x rest (e_fs s) sch P I1 N D).
 Qed.
 Print Assumptions C03_aw_history.
 
-(* EVERY PATH THAT CALLS lbuf_save, for any table, option on or off, any schedule: when the save does not say ok, the remembered
-   stamp, the saved mark, text and path of every slot are what they were.  (1) ec_write: a non-ok status leaves the whole table
-   (ghosts included) unchanged.  (2) the head of :e :n :b :!cmd :make: bufs_modified never changes a record at all; the buffer must
-   be kept <=> the status is not ok; a non-ok status leaves the table unchanged and a refusal also the directory and the schedule.
-   (3) :q :wq :x :xa: no quit <=> the status is not ok, and then the records are those before the loop (after the write part, which
-   is (1)) up to the bufs_switch that brings the offending slot to the front.  (4) the step of the invariant: one command keeps
-   `remembered <= ghost` for every slot under the clock hypothesis for that command alone. *)
+(* EVERY PATH THAT CALLS lbuf_save, for any table, option on or off, any schedule: saved mark and remembered stamp are updated after the
+   save returned no error and only then.  kept_or_saved x x': the slot is what it was, or (after a save that said ok) text and path are
+   the same, the saved mark is set and the remembered stamp is the ghost.  (1) ec_write: a non-ok status leaves the whole table (ghosts
+   included) unchanged.  (2) the head of :e :n :b :!cmd :make: the buffer must be kept <=> the status is not ok; a non-ok status leaves
+   the table unchanged and a refusal also the directory and the schedule; otherwise every slot is kept_or_saved.  (3) an autowrite that
+   said ok: saved mark set, remembered stamp = ghost = the stamp the file has now = the editor's clock.  (4) :q :wq :x :xa: no quit <=>
+   the status is not ok, and then, after the write part (which is (1)), the slots in front of the one whose save failed are
+   kept_or_saved, that slot and all behind it are exactly what they were, and the refused command only brings it to the front
+   (bufs_switch).  (5) one command keeps `remembered = ghost` for every slot, unconditionally. *)
 Theorem C03_aw_failure_keeps_record :
   (forall now isx force rng lk a tb fs sch st tb' fs' r,
      write_g now isx force rng lk a tb fs sch = (st, tb', fs', r) -> st <> SOk -> tb' = tb) /\
   (forall now aw bang lk tb fs sch blk st tb1 fs1 r1,
      leave0 bufs_modified now aw bang lk tb fs sch = (blk, st, tb1, fs1, r1) ->
-     map fst tb1 = map fst tb /\ (blk = true <-> st <> SOk) /\ (st <> SOk -> tb1 = tb) /\ (st = SRefused -> fs1 = fs /\ r1 = sch)) /\
+     Forall2 kept_or_saved tb tb1 /\ (blk = true <-> st <> SOk) /\ (st <> SOk -> tb1 = tb) /\ (st = SRefused -> fs1 = fs /\ r1 = sch)) /\
+  (forall now lk x fs sch blk x' fs' r,
+     bm_g bufs_modified now true lk x fs sch = (blk, SOk, x', fs', r) -> b_dirty (fst x) = true ->
+     b_dirty (fst x') = false /\ b_mtime (fst x') = snd x' /\ snd x' = mtime_of lk fs' (b_path (fst x)) /\ snd x' = now) /\
   (forall now aw wr isx all bang lk a tb fs sch q st tb' fs' r,
      quit_g bufs_modified now aw wr isx all bang lk a tb fs sch = (q, st, tb', fs', r) ->
      (q = false <-> st <> SOk) /\
-     (st <> SOk -> exists tb1, Permutation.Permutation (map fst tb') (map fst tb1) /\
-        ((wr = false /\ tb1 = tb) \/ (wr = true /\ exists st1 fs1 r1, write_g now isx bang None lk a tb fs sch = (st1, tb1, fs1, r1))))) /\
-  (forall s c,
-     match cmd_now c with Some now => Forall (fun x : gbuf => (b_mtime (fst x) <= now)%Z) (e_tb s) | None => True end ->
-     aw_inv (e_tb s) -> aw_inv (e_tb (step bufs_modified s c))).
+     (st <> SOk -> exists tb1 tb2 i,
+        ((wr = false /\ tb1 = tb) \/ (wr = true /\ exists st1 fs1 r1, write_g now isx bang None lk a tb fs sch = (st1, tb1, fs1, r1))) /\
+        Forall2 kept_or_saved tb1 tb2 /\ skipn i tb2 = skipn i tb1 /\ tb' = sw tb2 i)) /\
+  (forall s c, aw_inv (e_tb s) -> aw_inv (e_tb (step bufs_modified s c))).
 Proof.
-  split; [exact write_g_keeps|]. split; [exact leave0_record|]. split; [exact quit_g_record | exact step_inv].
+  split; [exact write_g_keeps|]. split; [exact leave0_record|]. split; [exact bm_g_ok_record|]. split; [exact quit_g_record | exact step_inv].
 Qed.
 Print Assumptions C03_aw_failure_keeps_record.
 
@@ -459,34 +460,34 @@ Print Assumptions C03_aw_conservative.
 
 (* Not vacuous, and the theorems tell the code from a plausible rewrite.  File 0 holds "one" stamped 100; the buffer is edited,
    `:se aw`, somebody rewrites the file (stamp 300), `:q` -- the autowrite is refused, the editor stays --, then a plain `:w`.
-   bufs_modified (the code): the :w is refused, the file keeps the foreign bytes, remembered stamp 100 = ghost.
-   bufs_modified_eager (the stamp re-read BEFORE the result of lbuf_save is looked at): the :w says ok, the newer file is replaced,
-   the remembered stamp 300 is ahead of the ghost 100 -- aw_inv is false.
-   bufs_modified_kept (bookkeeping after success only): refused as well.
-   Second history: the file is dated 900, in the editor's future (clock_ok fails): the autowrite at 200 succeeds and leaves the
-   remembered stamp at 900; a foreign write stamped 300 is then replaced by a plain `:w` by the code, but refused by bufs_modified_kept. *)
+   bufs_modified (the code): the :w is refused, the file keeps the foreign bytes, remembered stamp 100 = ghost, still modified.
+   bufs_modified_eager (seeded/C03i: the stamp re-read BEFORE the result of lbuf_save is looked at): the :w says ok, the newer file is
+   replaced; after the :q its remembered stamp 300 is not the ghost 100. *)
 Example C03_aw_nonvacuous :
   let one := [111; 110; 101; 10]%N in let ed := [[69; 10]%N; one] in let fo := [102; 10]%N in
   let h := [AText ed; ASet true; AForeign (FWrite 0 fo 300); AQuit 200 false false false false ANone []; AWrite 200 false false None ANone []] in
   let s0 := start [] [(0, (one, 100%Z))] 0 in
   let view (s : est) := (e_st s, e_quit s, fs_content (e_fs s) 0, map (fun x : gbuf => (b_mtime (fst x), snd x, b_dirty (fst x))) (e_tb s)) in
-  clock_ok bufs_modified s0 h /\
   view (run bufs_modified s0 h) = (SRefused, false, Some fo, [(100%Z, 100%Z, true)]) /\
   view (run bufs_modified_eager s0 h) = (SOk, false, Some (concat ed), [(200%Z, 200%Z, false)]) /\
-  view (run bufs_modified_eager s0 (firstn 4 h)) = (SRefused, false, Some fo, [(300%Z, 100%Z, true)]) /\
-  view (run bufs_modified_kept s0 h) = (SRefused, false, Some fo, [(100%Z, 100%Z, true)]) /\
+  view (run bufs_modified_eager s0 (firstn 4 h)) = (SRefused, false, Some fo, [(300%Z, 100%Z, true)]).
+Proof. cbv zeta. repeat split; vm_compute; reflexivity. Qed.
+(* The defect repaired by 37c81b2 ("stale stamp").  The file is dated 900, in the editor's future; `:se aw`, edit, `:e 1` autowrites at
+   clock 200 -- the file's stamp goes BACK to 200 --, `:e! 0`, edit, somebody writes the file (stamp 300), plain `:w`.
+   bufs_modified_stale (ex.c before the fix: nothing recorded after a successful autowrite, the slot keeps 900): the :w says ok and
+   replaces the newer file.  bufs_modified (the code): the autowrite recorded stamp 200 and the saved mark; the :w is refused, the foreign
+   bytes stay, the buffer stays modified. *)
+Example C03_aw_stale_stamp_fixed :
+  let one := [111; 110; 101; 10]%N in let ed := [[69; 10]%N; one] in let fo := [102; 10]%N in
+  let view (s : est) := (e_st s, e_quit s, fs_content (e_fs s) 0, map (fun x : gbuf => (b_mtime (fst x), snd x, b_dirty (fst x))) (e_tb s)) in
   let h2 := [AText ed; ASet true; AEdit 200 false (AName 1) []; AEdit 200 true (AName 0) []; AText ed; AForeign (FWrite 0 fo 300);
              AWrite 200 false false None ANone []] in
   let s2 := start [] [(0, (one, 900%Z))] 0 in
-  ~ clock_ok bufs_modified s2 h2 /\
-  view (run bufs_modified s2 h2) = (SOk, false, Some (concat ed), [(200%Z, 200%Z, false); (-1, -1, false)%Z]) /\
-  view (run bufs_modified_kept s2 h2) = (SRefused, false, Some fo, [(200%Z, 200%Z, true); (-1, -1, false)%Z]).
-Proof.
-  cbv zeta. split; [vm_compute; repeat split; repeat constructor; discriminate|].
-  repeat (split; [vm_compute; reflexivity|]).
-  split; [|split; vm_compute; reflexivity].
-  vm_compute. intros [_ [_ [H _]]]. inversion H as [|? ? A _]. apply A. reflexivity.
-Qed.
+  view (run bufs_modified_stale s2 h2) = (SOk, false, Some (concat ed), [(200%Z, 200%Z, false); (-1, -1, false)%Z]) /\
+  view (run bufs_modified_stale s2 (firstn 4 h2)) = (SOk, false, Some (concat ed), [(900%Z, 200%Z, true); (-1, -1, false)%Z]) /\
+  view (run bufs_modified s2 (firstn 4 h2)) = (SOk, false, Some (concat ed), [(200%Z, 200%Z, false); (-1, -1, false)%Z]) /\
+  view (run bufs_modified s2 h2) = (SRefused, false, Some fo, [(200%Z, 200%Z, true); (-1, -1, false)%Z]).
+Proof. cbv zeta. repeat split; vm_compute; reflexivity. Qed.
 End C03_autowrite.
 
 (* ================================================================== the autowrite of bufs_modified ON THE C TEXT (coq/TrQuit.v, tr-quit's
